@@ -59,6 +59,7 @@ def run_case(c: Case, large_count: bool = False) -> Outcome:
         o.skip = f"unparsed text: {exc}"
         return o
     o.mn = mn
+    o.ops = ops  # type: ignore[attr-defined]
     length = ins.length()
     mem = dict(c.mem)
     for i, b in enumerate(c.data[:length]):
